@@ -130,6 +130,44 @@ func (fv *FuncVerifier) evalCall(st *State, env *Env, call *ast.CallExpr) []Term
 			}
 		}
 	}
+	// package-level function variable with an (assumed) contract
+	{
+		var vobj types.Object
+		switch f := fun.(type) {
+		case *ast.Ident:
+			vobj = env.info.ObjectOf(f)
+		case *ast.SelectorExpr:
+			if _, isSel := env.info.Selections[f]; !isSel {
+				vobj = env.info.ObjectOf(f.Sel)
+			}
+		}
+		if vobj != nil {
+			if vc := fv.prog.VarContracts[vobj]; vc != nil {
+				fv.calleesUsed[vc.Key+" (package-level function value, contract ASSUMED)"] = true
+				vsig, _ := vobj.Type().Underlying().(*types.Signature)
+				args := fv.evalArgs(st, env, call, vsig)
+				if vc.Has("pure", 0) {
+					var sorts []Sort
+					for _, a := range args {
+						sorts = append(sorts, a.Sort)
+					}
+					var res []Term
+					for i := 0; i < vsig.Results().Len(); i++ {
+						rs := fv.sortOf(vsig.Results().At(i).Type())
+						name := fmt.Sprintf("fnvar_%s_%d", sanitize(vc.Key), i)
+						fv.w.UFun(name, sorts, rs, "")
+						res = append(res, App(rs, name, args...))
+					}
+					return res
+				}
+				if !env.spec {
+					fv.nondet = append(fv.nondet, "call of function variable "+vc.Key)
+					fv.havocAll(st)
+				}
+				return fv.freshResults(st, vsig)
+			}
+		}
+	}
 	fval := fv.eval(st, env, fun)
 	var sig *types.Signature
 	if t := fv.typeOf(env, fun); t != nil {
@@ -561,6 +599,13 @@ func (fv *FuncVerifier) inlineClosure(st *State, env *Env, cl *Closure, args []T
 			}
 		}
 	}
+	if ord, ok := fv.lits[cl.Lit]; ok && fv.fn.Contr != nil {
+		for _, rc := range fv.fn.Contr.Get("requires", 0, ord) {
+			g := fv.evalClause(st, rc, cl.Lit.Body.Lbrace+1, nil, nil)
+			fv.obligeNamedAt(st, "F", fmt.Sprintf("lit-requires[lit%d,%d]", ord, rc.Ord), g, site, "precondition of local closure: "+rc.Text)
+			st.Assume(g)
+		}
+	}
 	nres := sig.Results().Len()
 	savedDefers := st.defers
 	st.defers = nil
@@ -828,6 +873,14 @@ func (fv *FuncVerifier) callRepoFunc(st *State, env *Env, call *ast.CallExpr, fi
 			fv.obligeNamed(st, env, "S", fmt.Sprintf("requires:%s[%d]", fi.Key, cl.Ord), g, call.Lparen, "precondition of "+fi.Key+": "+cl.Text)
 		}
 	}
+	// termination of direct recursion: the callee's measure on the arguments is smaller than ours on entry
+	if fi == fv.fn && !env.spec {
+		for _, cl := range c.Get("decreases", 0, 0) {
+			m1 := fv.evalClauseFor(fi, st, cl, binds, nil, nil, nil)
+			m0 := fv.evalClauseFor(fi, fv.entry, cl, fv.entryParams, nil, nil, nil)
+			fv.obligeNamedAt(st, "T", fmt.Sprintf("decreases[rec,%d]", cl.Ord), And(Lt(m1, m0), Le(IntLit(0), m0)), call.Lparen, "recursive call decreases the measure: "+cl.Text)
+		}
+	}
 	pre := st.Clone()
 	preBinds := binds
 	// effects
@@ -959,6 +1012,23 @@ func (fv *FuncVerifier) havocMapArgs(st *State, env *Env, call *ast.CallExpr) {
 			nv := fv.fresh("mhavoc", fv.sortOf(t))
 			st.Assume(fv.typeInv(nv, t))
 			fv.assignTo(st, env, a, nv, nil)
+		}
+		// a callee can overwrite the elements (not the length) of a slice argument
+		if _, ok := t.Underlying().(*types.Slice); ok {
+			la := ast.Unparen(a)
+			if c, isConv := la.(*ast.CallExpr); isConv && len(c.Args) == 1 {
+				if tv, ok := env.info.Types[c.Fun]; ok && tv.IsType() {
+					la = ast.Unparen(c.Args[0])
+				}
+			}
+			if isLvalue(la) {
+				old := fv.eval(st, &Env{info: env.info, binds: env.binds, spec: true}, la)
+				if fv.w.IsSeq(old.Sort) {
+					nv := fv.fresh("shavoc", old.Sort)
+					st.Assume(App(SBool, "=", fv.w.SeqLen(nv), fv.w.SeqLen(old)))
+					fv.assignTo(st, env, la, nv, nil)
+				}
+			}
 		}
 	}
 }
